@@ -45,6 +45,11 @@ int eb_cmp(const eb_t p, const eb_t q) {
 		return RLC_EQ;
 	}
 
+	/* The cross-multiplication below would compare zeroes. */
+	if (eb_is_infty(p) || eb_is_infty(q)) {
+		return RLC_NE;
+	}
+
     eb_null(r);
     eb_null(s);
 
